@@ -31,7 +31,8 @@
                              the same for EVERY filter and both kinds of watch (the non-recursive watches whose mask
                              has no IN_MOVE are handled by a weaker twin relation: reader states equal up to
                              _moved_from_events), given a well-formed root path and rename sources with a base name
-   What is NOT proved: C11_full, the unrestricted statement.  The gaps, named:
+     C11_full_drained        C11_full instantiated with that drained semantics
+   What is NOT proved: C11_full for the Pipeline LTS over arbitrary action histories.  The gaps, named:
      (a) histories that are not drained: several operations per read (the kernel then coalesces differently
          under different masks - C11_kernel_twin is only up to kcollapse), reads that cut a burst, pairing
          through the delay queue across reads and the clock;
@@ -290,6 +291,13 @@ Theorem C11_handler_sequential : forall F C full,
         stutter_eq keptF (filter (fun e => accepts F (ev_cls e)) keptU).
 Proof. exact handler_sequential. Qed.
 Print Assumptions C11_handler_sequential.
+
+(* C11_full holds of the drained semantics: history = (reader configuration, initial world, operations), every
+   operation drained; paced = WATCHDOG_ALL_EVENTS for the unfiltered watch, well-formed root path, rename sources
+   with a base name, no reader crash. *)
+Theorem C11_full_drained : C11_full dhist paced_drained events_drained.
+Proof. exact full_drained. Qed.
+Print Assumptions C11_full_drained.
 
 (* [run_one (pc_filter P)] is what the Pipeline model delivers for AOp o; ARead (whole queue); ATick delay;
    AEmit ... from a state whose buffer is idle (C03's pipeline_tie, with the class filter kept). *)
